@@ -353,6 +353,16 @@ def standard_proof_phase(ck, prop_file, need_srcfacts=True):
     for o in obs:
         if not o['discharged']:
             broken.append('theorem %s: %s' % (o['name'], o['why']))
+    if ck.tier != 'quick' and not broken:
+        # thorough tier: independent re-check of the compiled closure of the property file by coqchk, which also
+        # lists the axioms of every library it loads (expected: none)
+        rc, so, se = sh(['coqchk', '-silent', '-o', '-Q', 'theories', 'Quill', '-Q', 'gen', 'QuillGen', 'Quill.Props.' + prop_file],
+                        cwd=COQ, timeout=1800)
+        txt = (so or '') + str(se or '')
+        ok = rc == 0 and '* Axioms: <none>' in txt
+        ck.tie.append({'name': 'coqchk -o Quill.Props.' + prop_file, 'ok': ok})
+        if not ok:
+            broken.append('coqchk -o on %s: rc=%s %s' % (prop_file, rc, txt[-300:]))
     return broken
 
 
